@@ -18,7 +18,7 @@ from sa.cfg import NORMAL, describe_path
 from sa.report import Report
 from sa.effects import Effects
 from sa.sides import SideAnalysis, show, MUTATING_API
-from sa.util import cfg_root, node_has_call, node_contains, has_fact, node_stores_attr, fact_binds, fact_in, local_assigned_from
+from sa.util import extra_facts, cfg_root, node_has_call, node_contains, has_fact, node_stores_attr, fact_binds, fact_in, local_assigned_from
 from sa import pat
 
 
@@ -226,12 +226,35 @@ class C12:
         f = ctx.prog.func("Provider.is_subpath")
         folder, target = f.params()[1], f.params()[2]
         rets = [n for n in ctx.own_nodes(f) if isinstance(n, ast.Return) and n.value is not None]
+        # `folder_len = len(folder_full)` hoisted into a local: read facts with such single-assignment length locals inlined
+        ldefs = {}
+        for n in ctx.own_nodes(f):
+            if isinstance(n, ast.Assign) and isinstance(n.targets[0], ast.Name):
+                ldefs.setdefault(n.targets[0].id, []).append(n.value)
+        lens = {k: v[0] for k, v in ldefs.items() if len(v) == 1 and isinstance(v[0], ast.Call) and isinstance(v[0].func, ast.Name) and v[0].func.id == "len"}
+
+        def inline(facts):
+            if not lens:
+                return facts
+            out = set()
+            for (txt, pol) in facts:
+                try:
+                    e = ast.parse(txt, mode="eval").body
+                except SyntaxError:
+                    out.add((txt, pol))
+                    continue
+
+                class S(ast.NodeTransformer):
+                    def visit_Name(self, nm):
+                        return lens.get(nm.id, nm)
+                out.add((ast.unparse(S().visit(e)), pol))
+            return out
         n_rel = 0
         for r in rets:
             v = r.value
             if isinstance(v, ast.Constant) and v.value is False:
                 continue
-            facts = ctx.facts_at(f, r)
+            facts = inline(ctx.facts_at(f, r))
             if isinstance(v, ast.IfExp) and isinstance(v.body, ast.Constant) and v.body.value is False:
                 facts = set(facts) | {(ast.unparse(v.test), False)}
             n_rel += 1
@@ -262,11 +285,13 @@ class C12:
                  "when not both are set", expect_min=2)
         f = ctx.prog.func("Provider.set_root")
         g = ctx.cfg(f)
-        tests = [n for n in g.nodes if n.kind == "test" and pat.match("self._root_path and self._root_oid", n.ast) is not None]
+        from sa.util import test_is
+        tsig = {n.id: test_is(n, "self._root_path and self._root_oid") for n in g.nodes}
+        tests = [n for n in g.nodes if tsig[n.id]]
         if not tests:
             rep.violation("C12.Y6", "set_root|guard", f, "set_root no longer tests whether a root is already set")
             return
-        starts = [b for t in tests for (b, l) in g.succ[t.id] if l == "T"]
+        starts = [b for t in tests for (b, l) in g.succ[t.id] if l == ("T" if tsig[t.id] > 0 else "F")]
         n = 0
         for attr in ("_root_path", "_root_oid"):
             stores = [m for m in g.nodes if node_stores_attr(m, attr)]
@@ -302,6 +327,47 @@ class C12:
         good = bool(tr) and all(self.sa.value_side(f, c.args[1]) is not None for c in tr if len(c.args) == 2)
         rep.check("C12.Y7", "check_revivify|current-path", f, good, "translate applied to the provider-reported path",
                   "check_revivify no longer translates the provider-reported path", nontrivial=False)
+        # ... and that path is the provider's CURRENT answer (info_oid), not the path remembered in the state
+        defs = {}
+        for n in ctx.own_nodes(f):
+            if isinstance(n, ast.Assign) and isinstance(n.targets[0], ast.Name):
+                defs.setdefault(n.targets[0].id, []).append(n.value)
+
+        def fresh(e, depth=0):
+            if depth > 4:
+                return False
+            if isinstance(e, ast.Name):
+                return e.id in defs and all(fresh(v, depth + 1) for v in defs[e.id])
+            if isinstance(e, ast.Attribute) and e.attr == "path":
+                return fresh(e.value, depth + 1)
+            return isinstance(e, ast.Call) and (pat.match("self.providers[$S].info_oid($$$)", e) is not None or pat.match("self.providers[$S].info_path($$$)", e) is not None)
+        for c in tr:
+            if len(c.args) == 2:
+                rep.check("C12.Y7", "check_revivify|asked-provider", ctx.line(f, c), fresh(c.args[1]), "the translated path is what the provider reports now (info_oid(...).path)",
+                          "check_revivify translates `%s`, a path remembered in the state, instead of asking the provider: for an ignored entry nothing else refreshes it, so an "
+                          "object that was moved INTO the root is never noticed (never created on the peer)" % ast.unparse(c.args[1]))
+
+    def y9(self):
+        rep, ctx = self.rep, self.ctx
+        rep.rule("C12.Y9", "provider-side event filtering (MockProvider._filter_event): a folder whose event shows it entering the root (current path inside, known path "
+                 "not inside) is answered with WALK under no further condition - its content, whose events were dropped while it was outside, is discovered by the walk", 1)
+        f = ctx.prog.func("MockProvider._filter_event")
+        g = ctx.cfg(f)
+        walks = [n for n in g.nodes if n.kind == "stmt" and isinstance(n.ast, ast.Return) and n.ast.value is not None and ast.unparse(n.ast.value).endswith("EventFilter.WALK")]
+        if not walks:
+            rep.violation("C12.Y9", "_filter_event|walk", f, "the filter never answers WALK: the content of a folder moved into the root is never discovered")
+            return
+        ev = f.params()[1]
+        cur = local_assigned_from(ctx, f, "self.is_subpath_of_root(%s.path)" % ev) or "curr_subpath"
+        allowed = [("self._root_path", True), ("self._filter_events", True), ("self.oid_is_path", False), ("%s.exists" % ev, True), ("%s.path" % ev, True),
+                   (cur, True), ("$PRIOR", False), ("%s.otype == DIRECTORY" % ev, True), ("not self._root_path or not self._filter_events or self.oid_is_path", False)]
+        for w in walks:
+            facts = ctx.facts(f).facts(w)
+            extra = extra_facts(facts, allowed)
+            need = fact_in(facts, cur, True) and has_fact(facts, "%s.otype == DIRECTORY" % ev, True)
+            rep.check("C12.Y9", "_filter_event|walk", ctx.line(f, w.ast), need and not extra, "WALK for every folder entering the root",
+                      "the walk for a folder entering the root is %s: a folder the engine has seen before (synced, moved out, filled, moved back in) arrives without its children" %
+                      ("only issued under the extra condition(s) %s" % extra if extra else "not tied to `folder entering the root` (facts %s)" % sorted(facts)))
 
 
     def y8(self):
@@ -383,4 +449,9 @@ def run(ctx: Ctx, rep: Report, tier: str):
     c.y6()
     c.y7()
     c.y8()
+    c.y9()
     rep.assume("an application-supplied translate() returns None for what it declines; provider-side event filtering is not relied upon")
+    from rules.common import subpath_lengths_are_normalised
+    rep.rule("C12.Y5b", "the component-boundary test of is_subpath is positioned with the length of the normalised folder (C13.Z8): a root configured as `/local/` "
+             "neither rejects its own content nor admits `/locals/...`", 2)
+    subpath_lengths_are_normalised(ctx, rep, "C12.Y5b")
